@@ -638,7 +638,7 @@ impl World {
         if &old != now {
             let n = ser(now).map(|b| b.len()).unwrap_or(0);
             return self.soft(
-                &["C10", "C08"],
+                if cause == "unknown-user" { &["C10", "C08", "C17"] } else { &["C10", "C08"] },
                 &format!("usk-modified-by-failed-{op}:{cause}"),
                 format!("{op} returned Err ({cause}) but the user key changed ({} -> {} bytes)", before.len(), n),
             );
@@ -1439,6 +1439,15 @@ impl World {
             Ok((secret, enc2)) => {
                 if secret.to_vec() == self.encs[ei].secret {
                     return self.fail(&["C18", "C16"], "recaps-reuses-secret", "re-encapsulation returned the original secret".into());
+                }
+                if let Ok(b2) = ser(&enc2) {
+                    let tag = b2[..16].to_vec();
+                    if self.encs.iter().any(|e| ser(&e.enc).map(|b| b[..16] == tag[..]).unwrap_or(false)) {
+                        return self.fail(&["C18", "C16"], "recaps-repeats-an-earlier-encapsulation", "re-encapsulation produced the tag of an encapsulation produced earlier in this history (no fresh randomness)".into());
+                    }
+                }
+                if self.encs.iter().any(|e| e.secret == secret.to_vec()) {
+                    return self.fail(&["C18", "C16"], "recaps-repeats-an-earlier-secret", "re-encapsulation returned a secret already returned earlier in this history".into());
                 }
                 if enc2 == self.encs[ei].enc {
                     return self.fail(&["C18", "C16"], "recaps-reuses-encapsulation", "re-encapsulation returned the original encapsulation".into());
